@@ -19,7 +19,7 @@ from ..recorder import Recorder, STARTS, ENDS, END_OF
 
 MAXB = 3
 MAXD = 2
-KINDS = (B.NS, B.EXT, B.CLS, B.CLSVAR, B.TDCLS, B.INLNS, B.NESTNS)
+KINDS = (B.NS, B.EXT, B.CLS, B.CLSVAR, B.TDCLS, B.INLNS, B.NESTNS, B.NS_R, B.NESTNS_R, B.NS_ANON)
 TWIN = False
 FAULTS = True
 
@@ -213,6 +213,65 @@ def h_stream(c0: int, c1: int, c2: int, c3: int, c4: int, c5: int, c6: int, c7: 
         return bad is None
 
 
+def misplaced_judge(text):
+    """ill-formed input: whatever is delivered must be well-formed (kinds, innermost state); CxxParseError is fine"""
+    from cxxheaderparser.parser import CxxParser
+    from cxxheaderparser.errors import CxxParseError
+
+    if not KINDS_BY_CB:
+        KINDS_BY_CB.update(state_kinds())
+    rec = Recorder()
+    try:
+        p = CxxParser("f.h", text, rec, None)
+        root_state = p.state
+        p.parse()
+    except CxxParseError:
+        pass
+    # nesting may be left open by the error: check every delivered callback individually
+    stack = [root_state]
+    for i, ev in enumerate(rec.events[1:], 1):
+        allowed = KINDS_BY_CB.get(ev.name, ())
+        if allowed and not isinstance(ev.state, allowed):
+            return f"{ev.name} is delivered with a {type(ev.state).__name__} (its signature declares {[c.__name__ for c in allowed]})"
+        if ev.name in STARTS:
+            if ev.state.parent is not stack[-1]:
+                return f"{ev.name} #{i}: state.parent is not the enclosing block's state"
+            stack.append(ev.state)
+        elif ev.name in ENDS:
+            if len(stack) < 2 or ev.state is not stack[-1]:
+                return f"{ev.name} #{i} does not match the most recent open start"
+            stack.pop()
+        elif ev.state is not stack[-1]:
+            return f"{ev.name} #{i} does not carry the innermost open block's state"
+    return None
+
+
+MISPLACED_WRAPS = ["struct S {{ int a; {m} int b; }};", "namespace N {{ class C {{ struct I {{ {m} }}; }}; }}", "union U {{ {m} }};",
+                   "template <typename T> class K {{ public: {m} }};"]
+
+
+def h_misplaced(c0: int, c1: int) -> bool:
+    """
+    post: _
+    """
+    with NoTracing():
+        ch = Chooser([c0, c1])
+        wrap = MISPLACED_WRAPS[ch.pick(len(MISPLACED_WRAPS))]
+        m = B.CLS_MISPLACED[ch.pick(len(B.CLS_MISPLACED))].format(n="q")
+        bad = misplaced_judge(wrap.format(m=m))
+        if TWIN:
+            return False
+        return bad is None
+
+
+def misplaced_replay(vals):
+    ch = Chooser(list(vals), prefix=())
+    wrap = MISPLACED_WRAPS[ch.pick(len(MISPLACED_WRAPS))]
+    m = B.CLS_MISPLACED[ch.pick(len(B.CLS_MISPLACED))].format(n="q")
+    text = wrap.format(m=m)
+    return text, misplaced_judge(text)
+
+
 def replay(vals, faults=True):
     if not KINDS_BY_CB:
         KINDS_BY_CB.update(state_kinds())
@@ -252,8 +311,20 @@ def run(tier):
         res = chrun.run(__name__, "h_stream", shards, timeout=(150 if tier == "quick" else 1500), globs=globs, pool=pool)
         chrun.record(ck, res, "stream well-formedness, fold equality and fault injection over all trees x payload rotations x fault positions",
                      bound=f"blocks<={maxb} depth<={maxd}")
+        tw = chrun.run(__name__, "h_misplaced", [(0, 0)], timeout=60, globs=dict(TWIN=True), pool=pool)
+        chrun.record(ck, tw, "misplaced-construct reachability twin", expect="refuted")
+        resm = chrun.run(__name__, "h_misplaced", [(a,) for a in range(len(MISPLACED_WRAPS))], timeout=120, pool=pool)
+        chrun.record(ck, resm, "namespace-scope constructs written inside classes: every delivered callback still carries a state of its declared kind",
+                     bound=f"{len(MISPLACED_WRAPS)} class contexts x {len(B.CLS_MISPLACED)} constructs")
     finally:
         pool.shutdown()
+    for shard, args, kw, msg in resm.counterexamples[:3]:
+        text, bad = misplaced_replay(list(shard) + list(args))
+        ck.traces += 1
+        if bad is None:
+            raise HarnessError(f"misplaced counterexample did not reproduce: {msg}")
+        body = ("from vf.props import c04\n" f"text, bad = c04.misplaced_replay({list(shard) + list(args)!r})\nprint(text); print(bad)\nsys.exit(1 if bad else 0)\n")
+        ck.violation(f"{bad} for {text!r}", ck.write_replay(body), key=dict(kind="misplaced", what=bad[:40]))
     globals().update(globs)
     seen = set()
     for shard, args, kw, msg in res.counterexamples:
